@@ -1,4 +1,4 @@
-CONSTANTS N = 400  MaxOps = 12  WithTxn = FALSE
+CONSTANTS N = 400  MaxOps = 12  WithTxn = FALSE  WithDDL = FALSE
 SPECIFICATION Spec
 VIEW view
 INVARIANT CountsConsistent
